@@ -104,6 +104,46 @@ def ipUn (L : Loop) (f : α → Option α) (self : Vec α S) : Option (Vec α S)
   | [.vec 0 ia] => loopIP S L (fun i cur => (rd cur ia i).bind f) self
   | _ => none
 
+-- scalar arguments of another arithmetic type (`LoopSIMD<int,4> v; v < 2.5`) ----------------------------------
+
+/-- the scalar argument as the per-lane statement sees it -/
+inductive Arg (σ α : Type) where
+  /-- the parameter is a free template parameter (`const U s`): the argument keeps its own type `σ`; every lane applies
+      the built-in mixed-type operation (usual arithmetic conversions) -/
+  | own (s : σ)
+  /-- the parameter is declared `Simd::Scalar<T>`: the call converts the argument to the lanes' scalar type first -/
+  | lane (x : α)
+  /-- the parameter is declared `Simd::Mask<T>`: the call converts the argument to `bool` first -/
+  | mask (m : Bool)
+
+/-- the implicit conversion of the call, decided by the declared parameter type the translator read off the overload
+    (`toLane`: the conversion `σ → Scalar<T>`, `truth`: the conversion to `bool`) -/
+def passScalar {σ : Type} (p : ScalarParam) (toLane : σ → Option α) (truth : σ → Option Bool) (s : σ) : Option (Arg σ α) :=
+  match p with
+  | .own => some (.own s)
+  | .laneScalar => (toLane s).map .lane
+  | .laneMask => (truth s).map .mask
+  | .none => none
+
+/-- `out[..] = v[..] OP s` for a scalar argument `s` of type `σ` -/
+def binVSx {σ : Type} (L : Loop) (f : α → Arg σ α → Option γ) (toLane : σ → Option α) (truth : σ → Option Bool)
+    (a : Vec α S) (s : σ) : Option (Vec γ S) :=
+  (passScalar L.scalarTy toLane truth s).bind fun arg => binVS L f a arg
+
+/-- `out[..] = s OP v[..]` for a scalar argument `s` of type `σ` -/
+def binSVx {σ : Type} (L : Loop) (f : Arg σ α → α → Option γ) (toLane : σ → Option α) (truth : σ → Option Bool)
+    (s : σ) (b : Vec α S) : Option (Vec γ S) :=
+  (passScalar L.scalarTy toLane truth s).bind fun arg => binSV L f arg b
+
+/-- the same for a vector of vectors: the conversion happens once, at the outer call; the entries are combined with the
+    already converted argument by the same overload -/
+def binVSxNested {σ : Type} {S₂ : Nat} (L : Loop) (f : α → Arg σ α → Option γ) (toLane : σ → Option α)
+    (truth : σ → Option Bool) (a : Vec (Vec α S₂) S) (s : σ) : Option (Vec (Vec γ S₂) S) :=
+  (passScalar L.scalarTy toLane truth s).bind fun arg => binVS L (fun (x : Vec α S₂) g => binVS L f x g) a arg
+def binSVxNested {σ : Type} {S₂ : Nat} (L : Loop) (f : Arg σ α → α → Option γ) (toLane : σ → Option α)
+    (truth : σ → Option Bool) (s : σ) (b : Vec (Vec α S₂) S) : Option (Vec (Vec γ S₂) S) :=
+  (passScalar L.scalarTy toLane truth s).bind fun arg => binSV L (fun g (y : Vec α S₂) => binSV L f g y) arg b
+
 -- the operators of loop.hh, each through the loop shape of its macro --------------------------------------
 
 def unary (sem : UnOp → α → Option α) (op : UnOp) (a : Vec α S) := un loop_UNARY_OP_v (sem op) a
@@ -125,6 +165,17 @@ def compareSV (sem : CmpOp → α → α → Option Bool) (op : CmpOp) (s : α) 
 def logicVV (sem : BoolOp → α → α → Option Bool) (op : BoolOp) (a b : Vec α S) := binVV loop_BOOLEAN_OP_vv (sem op) a b
 def logicVS (sem : BoolOp → α → α → Option Bool) (op : BoolOp) (a : Vec α S) (s : α) := binVS loop_BOOLEAN_OP_vs (sem op) a s
 def logicSV (sem : BoolOp → α → α → Option Bool) (op : BoolOp) (s : α) (b : Vec α S) := binSV loop_BOOLEAN_OP_sv (sem op) s b
+-- … with a scalar operand of another arithmetic type (`σ`)
+def compareVSx {σ : Type} (sem : CmpOp → α → Arg σ α → Option Bool) (toLane : σ → Option α) (truth : σ → Option Bool)
+    (op : CmpOp) (a : Vec α S) (s : σ) := binVSx loop_COMPARISON_OP_vs (sem op) toLane truth a s
+def compareSVx {σ : Type} (sem : CmpOp → Arg σ α → α → Option Bool) (toLane : σ → Option α) (truth : σ → Option Bool)
+    (op : CmpOp) (s : σ) (b : Vec α S) := binSVx loop_COMPARISON_OP_sv (sem op) toLane truth s b
+def logicVSx {σ : Type} (sem : BoolOp → α → Arg σ α → Option Bool) (toLane : σ → Option α) (truth : σ → Option Bool)
+    (op : BoolOp) (a : Vec α S) (s : σ) := binVSx loop_BOOLEAN_OP_vs (sem op) toLane truth a s
+def logicSVx {σ : Type} (sem : BoolOp → Arg σ α → α → Option Bool) (toLane : σ → Option α) (truth : σ → Option Bool)
+    (op : BoolOp) (s : σ) (b : Vec α S) := binSVx loop_BOOLEAN_OP_sv (sem op) toLane truth s b
+def shiftVSx {σ : Type} (sem : ShiftOp → α → Arg σ α → Option α) (toLane : σ → Option α) (truth : σ → Option Bool)
+    (op : ShiftOp) (a : Vec α S) (s : σ) := binVSx loop_BITSHIFT_OP_vs (sem op) toLane truth a s
 def math (sem : MathOp → α → Option α) (op : MathOp) (a : Vec α S) := un loop_CMATH_UNARY_OP_v (sem op) a
 def mathRet (sem : MathRetOp → α → Option β) (op : MathRetOp) (a : Vec α S) := un loop_CMATH_UNARY_OP_WITH_RETURN_v (sem op) a
 def stdUn (sem : StdUnOp → α → Option β) (op : StdUnOp) (a : Vec α S) := un loop_STD_UNARY_OP_v (sem op) a
